@@ -95,6 +95,19 @@ def build(tier, seed):
         for h in hs:
             for tl in ([1] if quick else [1, 2]):
                 add(tag, spec, h, k, tl=tl, witness=(h == hs[0] and tl == 1))
+    # bounded iterators: a concrete seek beyond the table (iterator runs dry), then a symbolic seek back in range
+    dry = [
+        ("T22pfxdry", with_q(T22, b"", ctgt=[b"zz"]), 2, ["Ssn", "nSsnn"]),
+        ("T22rngdry", with_q(T22, b"c", b"zz", ctgt=[b"zz"]), 3, ["Ssn"]),
+        ("TPFpfxdry", with_q(TPF, b"a", ctgt=[b"d"]), 2, ["Ssn"]),
+    ]
+    if not quick:
+        dry += [("T22getdry", with_q(T22, b"f", ctgt=[b"zz"]), 1, ["Ssn", "nSsn"]),
+                ("TRSrngdry", with_q(TRS, b"ab", b"zz", ctgt=[b"c"]), 3, ["Ssnn", "nnSsn"]),
+                ("T22iterdry", with_q(T22, b"", ctgt=[b"zz"]), 0, ["Ssn", "nnSsn"])]
+    for tag, spec, k, hs in dry:
+        for h in hs:
+            add(tag, spec, h, k, tl=1)
     # two symbolic seeks (thorough only)
     if not quick:
         for tag, spec in (("T21", T21), ("T22", T22)):
